@@ -6,7 +6,7 @@
 (* model-level theorems of the declarative semantics on each of them and   *)
 (* prints one behaviour ("CASE {...}") per state for the Rust side.        *)
 (***************************************************************************)
-EXTENDS SemiNaive, Json, IOUtils
+EXTENDS AscentDesugar, Json, IOUtils
 
 Progs == JsonDeserialize(IOEnv.PROGS)
 
@@ -54,6 +54,12 @@ Theorems ==
 
 (* the evaluation strategy of the generated code (plan + semi-naive loop, SemiNaive.tla) computes the least model *)
 SemiNaiveCorrect == SemiNaiveResult(P, inp) = LeastModel(P, inp)
+
+(* C07 / C08 at the model level: the direct meaning of the surface forms is the meaning of their core expansion *)
+DesugarCorrect == DesugarTheorem(P, inp)
+
+(* C14 at the model level: every database a deadline can leave behind is sound and resumable *)
+TimeoutTheorem == TimeoutStatesSoundAndResumable(P, inp)
 
 (* a larger input gives a larger model when no negation / aggregation is involved *)
 MonotoneStep ==
